@@ -1,6 +1,7 @@
 import MirVerif.Model.Footprint
 import MirVerif.Model.FootprintAllowed
 import MirVerif.Model.FootprintPages
+import MirVerif.Model.FootprintHandover
 /-! line-protocol driver for property C18 (`mirdrv_c18`).
 
 `mirdrv_c18 allowed`   prints the hand-maintained classification:
@@ -16,6 +17,9 @@ import MirVerif.Model.FootprintPages
         SHARED unchanged=<0|1>
         END
     reset                                            forget the trace
+    ho <old> <new> <module> R <owner>* T <ctx>:<module>*   hand-over monitor (`Footprint.handoverOk`): owners of
+                                                     the module's string references and item-table entries seen
+                                                     after MIR_change_module_ctx; prints HO ok | HO bad refs=<n> tab=<n>
     pages <pagesize> <ctx>                           start the code-allocator event sequence of a context
       m <lo> <n> | u <lo> <n> | w <lo> <n>           mem_map / mem_unmap / mem_protect on pages lo..lo+n-1
       p <addr> <len>                                 a _MIR_change_code/_MIR_update_code call (byte range)
@@ -129,6 +133,21 @@ partial def loop (h : IO.FS.Stream) (st : DState) : IO Unit := do
     match a.toNat?, b.toNat? with
     | some a, some b => loop h { st with pg := some (a, b), ca := [] }
     | _, _ => IO.println s!"ERR cannot parse: {line.trimAscii}"; loop h st
+  | none, "ho" :: o :: n :: md :: "R" :: rest =>
+    let owners := (rest.takeWhile (· != "T")).filterMap String.toNat?
+    let tabs := ((rest.dropWhile (· != "T")).drop 1).filterMap (fun t =>
+      match t.splitOn ":" with
+      | [a, b] => match a.toNat?, b.toNat? with | some a, some b => some (a, b, 0) | _, _ => none
+      | _ => none)
+    match o.toNat?, n.toNat?, md.toNat? with
+    | some o, some n, some md =>
+      let m : Mod := { id := md, refs := owners.zipIdx.map (fun (ow, i) => { owner := ow, str := i }) }
+      let badr := (m.refs.filter (fun r => r.owner != n)).length
+      let badt := (tabs.filter (fun e => e.1 == o && e.2.1 == md)).length
+      IO.println (if handoverOk o n m tabs then "HO ok" else s!"HO bad refs={badr} tab={badt}")
+      (← IO.getStdout).flush
+      loop h st
+    | _, _, _ => IO.println s!"ERR cannot parse: {line.trimAscii}"; loop h st
   | none, ["reset"] => loop h { st with es := [] }
   | none, ["run"] =>
     for s in evalTrace st.es.reverse do IO.println s
